@@ -99,7 +99,9 @@ func VerifH_C14_O1_seekindex_writer_tiles() {
 // verif:desc C14-O2 inductive step of seekindex.Ranges.Append: from any Ranges of 0..2 ranges whose last range ends at or before the next entry (entries arrive in increasing, non-overlapping offset order, as a pruned seek index delivers them), Append(e) leaves earlier ranges untouched and either extends the last range by exactly e.Length (e adjacent to it) or adds the range [e.Offset, e.Offset+e.Length) (gap); hence a probe offset x lies in the new ranges iff it lay in the old ones or lies in e, the new last range ends where e ends (the invariant for the next step), and with 0 ranges (constructor case) the result is exactly e's range.
 // verif:bounds 0..2 existing ranges, Offset any 32-bit value, Length 0..65535, separated by gaps >= 1; e.Offset = end of last range + gap with gap either 0 (adjacent) or 1..65536, e.Length 0..65535; probe x any int64
 // verif:outside offsets near 2^63 (int64 conversion of the uint64 entry fields); entries out of order or overlapping
-func VerifH_C14_O2_ranges_append_step() {
+func VerifH_C14_O2_ranges_append_step() { vRangesAppendStep() }
+
+func vRangesAppendStep() {
 	n := verif.Choose("nranges", 3)
 	var ranges Ranges
 	x := verif.Int64("x")
